@@ -2,7 +2,7 @@ ID = "C15"
 TESTS = [
     T("filepool", "TestC15LargeDeviceOffsets",
       {"checks": 500, "shards": 2, "timeout": 300},
-      {"checks": 8000, "shards": 16, "timeout": 1500}),
+      {"checks": 2500, "shards": 16, "timeout": 1500}),
 ]
 ASSUMPTIONS = [
     "C15 large devices: sector sizes of 512 B .. 16 MiB on a sparse in-memory device of up to 2^32-1 sectors (only written 4 KiB pages are kept; unwritten device bytes read 0xa5); a harness-owned SectorAllocator hands out the drawn sector numbers one at a time (the interface allows returning fewer sectors than requested), so the placement of files does not depend on the bitmap allocator's cursor",
